@@ -159,6 +159,7 @@ func (h *history) buildReport() []PacketReport {
 		}
 		res = append(res, *packet)
 		h.delete(packet)
+		delete(h.packets, i)
 		if packet.SequenceNumber >= h.nextReport {
 			h.nextReport = packet.SequenceNumber + 1
 		}
@@ -187,6 +188,7 @@ func (h *history) cleanBefore(counter uint64) {
 	for i := h.cleanUntil; i < counter; i++ {
 		if p, ok := h.packets[i]; ok {
 			h.delete(p)
+			delete(h.packets, i)
 		}
 	}
 	h.cleanUntil = counter - 1
